@@ -303,13 +303,27 @@ class G:
             self.count("case")
             disp = self.expr("scalar", d)
             cases = [(self.fn_node("pred"), self.expr(ty, d)) for _ in range(self.rng.randint(1, 3))]
-            if self.chance(0.2) and depth > 1:
-                # a condition whose parameter comes from an option (PartialApplication)
-                pk = P.partial(P.fnvalue(self.pick(["eq", "ne"] if cfg.total_fns else ["lt", "gt", "eq"])), args=[P.option(self.pick(SCALAR_KEYS), dflt=P.value(1))])
-                cases[0] = (pk, cases[0][1])
-                self.count("partial")
+            for ci in range(len(cases)):
+                if self.chance(0.25) and depth > 1:
+                    # a condition whose parameter comes from an option (PartialApplication), at any position:
+                    # conditions after the matching one must not be evaluated, the matching one is read
+                    pk = P.partial(P.fnvalue(self.pick(["eq", "ne"] if cfg.total_fns else ["lt", "gt", "eq"])),
+                                   args=[P.option(self.pick(SCALAR_KEYS), dflt=P.value(1) if self.chance(0.6) else None)])
+                    cases[ci] = (pk, cases[ci][1])
+                    self.count("partial")
+            for ci in range(len(cases)):
+                if self.chance(0.2) and depth > 1:
+                    # a condition produced by a body (a function application returning the predicate): it runs only
+                    # if the cases before it did not match
+                    from pdl import fn as _fn
+                    self.n_fn += 1
+                    pred = self.pick([_fn("eq", self.pick(SCALARS)), _fn("ne", self.pick(SCALARS)), _fn("truthy"), _fn("not")])
+                    mk = P.fnvalue(P.const_fn(f"mk{self.n_fn}", pred))
+                    cases[ci] = (P.funapp(mk, [self.plain_leaf()] if self.chance(0.5) else []), cases[ci][1])
+                    self.count("funapp")
             dflt = self.expr(ty, d) if self.chance(0.7) else None
-            return P.case(disp, cases, dflt)
+            extra = {"ofirst": 1} if (dflt is not None and self.chance(0.3)) else {}
+            return P.case(disp, cases, dflt, **extra)
         if kind == "apply":
             self.count("apply")
             return P.apply(self.expr("scalar", d), self.fn_node(), via=self.pick(["apply", "rshift"]))
@@ -369,7 +383,15 @@ class G:
             saved = self.cfg
             self.cfg = dataclasses.replace(saved, maps=False)
             try:
-                inner = self.expr("any", d)
+                if self.chance(0.3):
+                    # the mapped object chooses what it reads from the mapped key: every element has its own key set
+                    vals = self.distinct(["x", "y", "z", 1], self.rng.randint(2, 3))
+                    its.append(("K", P.value(list(vals)) if self.chance(0.6) else P.option("KS", dflt=P.value(list(vals)))))
+                    lookup = [(v, self.plain_leaf() if self.chance(0.6) else self.expr("scalar", max(d - 1, 0))) for v in vals[:-1]]
+                    inner = P.switch(P.option("K", bare=True), lookup, self.plain_leaf())
+                    self.count("switch")
+                else:
+                    inner = self.expr("any", d)
             finally:
                 self.cfg = saved
             m = P.map(inner, its)
